@@ -104,6 +104,22 @@ def gen(tier, seed):
         A["scalar"] = False
         B = curve_json(rnd, V, q, 1, False)
         cases.append({"k": "cc", "A": A, "B": B, "op": "mul", "kind": "square", "shared": 0})
+    # divisors WITHOUT a zero whose control values have mixed signs: a quadratic Bezier (a, m, c) with a, c > 0 > m and
+    # m^2 < a c is positive on the whole interval (its minimum is (ac - m^2) / (a - 2m + c))
+    for i in range(14 if tier == "quick" else 150):
+        kind, U, p, _, _, _ = mk_pair(rnd, tier)
+        if npts_of(U, p) > 6:
+            continue
+        a, c = F(rnd.randint(1, 6), rnd.choice((1, 2))), F(rnd.randint(1, 6), rnd.choice((1, 2)))
+        m = -F(rnd.randint(1, 12), 8)
+        if not m * m < a * c:
+            m = -min(a, c) / 2
+        V = [U[0]] * 3 + [U[-1]] * 3
+        A = curve_json(rnd, U, p, rnd.choice((1, 2)), False)
+        B = {"U": fsl(V), "p": 2, "scalar": True, "P": pts_json([[a], [m], [c]]), "W": None}
+        if rnd.random() < 0.3:
+            A, B = B, dict(B, P=pts_json([[c], [m], [a]]))
+        cases.append({"k": "cc", "A": A, "B": B, "op": "div", "kind": kind + "-mixed-sign-divisor", "shared": 0})
     # scalar / vector / matrix forms
     for i in range(50 if tier == "quick" else 600):
         kind, U, p, _, _, _ = mk_pair(rnd, tier)
